@@ -1266,6 +1266,59 @@ def corpus_cases():
         {'op': 'pl', 's': [['1/1048576']], 'pllayout': 'T'},
         {'op': 'tx', 'x': [gen_signal(core.Rng(10, 'c03corpus'), 2, 3)], 'siso': False, 'layout': 'f'}, {'op': 'ir'}])
     out.append(c)
+    # R8 / R9 / R11 / R13: one 0 dB tap handed over as arrays + Ts by keyword, every call by keyword or with its
+    # defaults left out, numpy integers as counts, read-only calls and a deep copy in the middle
+    c = dict(base, level='su', delays=[2], amps=['1'], Ts=0.5, ctor='arrays', ctor_kw=True, ant=[2, 2], late_ant=True,
+             ant_type='int16', ops=[
+        {'op': 'query'}, {'op': 'pl', 's': None, 'omit': True}, {'op': 'tx', 'x': x2, 'siso': False, 'kw': True},
+        {'op': 'ir'}, {'op': 'query', 'qfft': 3}, {'op': 'fork'},
+        {'op': 'fx', 'fft': 6, 'sel': {'kind': 'all'}, 'x': x2, 'siso': False, 'kw': True, 'omit': True}, {'op': 'ir'},
+        {'op': 'setant', 'ant': [1, 2], 'kw': True, 'ant_type': 'uint8'}, {'op': 'pl', 's': '1/2', 'kw': True},
+        {'op': 'tx', 'x': x2, 'siso': False}, {'op': 'ir'}])
+    out.append(c)
+    c = dict(base, level='su', delays=[0], amps=['1'], Ts=1.0, ctor='profile+Ts', jakes=False, ant=[2, 2],
+             wrapper=True, ops=[{'op': 'tx', 'x': x2, 'siso': False}, {'op': 'ir'}, {'op': 'fork'},
+                                {'op': 'tx', 'x': x2, 'siso': False}, {'op': 'ir'}])
+    out.append(c)
+    c = dict(base, level='tdl', ant=[2, 3], wrapper=True, ctor_omit_defaults=True, ops=[
+        {'op': 'gen', 'n': 1, 'omit': True}, {'op': 'ir'}, {'op': 'gen', 'n': 3, 'kw': True, 'n_type': 'uint8'},
+        {'op': 'ir'}, {'op': 'tx', 'x': x3, 'siso': False, 'kw': True}, {'op': 'ir'}])
+    out.append(c)
+    # R8 / R9 / R10: multiuser set_pathloss(None), per-transmitter LIST of arrays of mixed element types (one
+    # transmitter and several), numpy integers as link indexes and as the number of pairs
+    x4r = gen_signal(core.Rng(11, 'c03corpus'), 1, 4, real=True)
+    x4c = gen_signal(core.Rng(12, 'c03corpus'), 1, 4)
+    c = dict(base, level='mu', nrx=2, ntx=2, n_as_int=True, n_type='int64', ops=[
+        {'op': 'pl', 's': [['1/2', '1/4'], ['1', '1/2']]}, {'op': 'pl', 's': None},
+        {'op': 'fx', 'fft': 4, 'sel': {'kind': 'all'}, 'x': [x4r, x4c], 'hetero': True, 'hetero_rot': 2, 'omit': True},
+        {'op': 'ir', 'kw': True, 'idx_type': 'int8'}, {'op': 'query'}, {'op': 'fork'},
+        {'op': 'fx', 'fft': 4, 'sel': {'kind': 'idx', 'idx': [3, 0]}, 'x': [[r[:2] for r in x4r], [r[:2] for r in x4c]],
+         'hetero': True, 'hetero_rot': 1, 'kw': True},
+        {'op': 'ir', 'idx_type': 'arr0d'}])
+    out.append(c)
+    c = dict(base, level='mu', nrx=2, ntx=1, ant=[2, 1], ops=[
+        {'op': 'fx', 'fft': 4, 'sel': {'kind': 'all'}, 'x': [x4r], 'siso': False, 'hetero': True, 'hetero_rot': 0},
+        {'op': 'ir'},
+        {'op': 'sw', 'v': True},
+        {'op': 'fx', 'fft': 4, 'sel': {'kind': 'all'}, 'x': [[x4r[0], x4c[0]], [x4c[0], x4r[0]]], 'siso': False,
+         'hetero': True, 'hetero_rot': 1}, {'op': 'ir'}])
+    out.append(c)
+    # R14: counts above 256 - a 257-tap profile, and a multiuser channel with 257 links
+    rr = core.Rng(13, 'c03corpus')
+    taps = sorted(set(range(300)) - set(rr.below(300) for _ in range(400)))
+    while len(taps) < 257:
+        taps = sorted(set(taps) | {rr.below(300)})
+    taps = taps[:256] + [299]
+    c = dict(base, delays=taps, amps=[rr.choice(['1', '2', '1/2']) for _ in taps], ops=[
+        {'op': 'tx', 'x': gen_signal(rr, 1, 3)}, {'op': 'ir'},
+        {'op': 'fx', 'fft': 300, 'sel': {'kind': 'slice', 'slice': [299, None, -7]}, 'x': gen_signal(rr, 1, 43),
+         'fft_type': 'uint16'}, {'op': 'ir'}])
+    out.append(c)
+    c = dict(base, level='mu', nrx=1, ntx=257, delays=[1], amps=['2'], jakes=False, ops=[
+        {'op': 'pl', 's': [[rr.choice(PLS) for _ in range(257)]]},
+        {'op': 'tx', 'x': [gen_signal(rr, 1, 2) for _ in range(257)]}, {'op': 'ir', 'idx_type': 'uint16'},
+        {'op': 'sw', 'v': True}, {'op': 'tx', 'x': [gen_signal(rr, 1, 2)], 'as1d': True}, {'op': 'ir'}])
+    out.append(c)
     for c in out:
         c.setdefault('Ts', 1e-3)
     return out
@@ -1303,9 +1356,14 @@ def discretize_corr(ctx, n):
              for Ts, ds, ps in cases]
     rep = drv.ask(lines)
     for (Ts, ds, ps), line, r in zip(cases, lines, rep):
+        # R12: the real code gets the taps in another order than the model (theorem discretize_order_independent)
+        perm = list(range(len(ds)))
+        if len(ds) >= 2 and ctx.rng.chance(0.5):
+            ctx.rng.shuffle(perm)
+            ctx.branch('corr:R12:tap-order')
         try:
-            prof = fading.TdlChannelProfile(linear2dB(np.array([float(p) for p in ps])),
-                                            np.array([float(d) for d in ds]))
+            prof = fading.TdlChannelProfile(linear2dB(np.array([float(ps[i]) for i in perm])),
+                                            np.array([float(ds[i]) for i in perm]))
             dp = prof.get_discretize_profile(float(Ts))
         except Exception as e:
             # the model always discretises a valid profile; the oracle reports the concrete input
@@ -1555,7 +1613,12 @@ def o_history(case):
       * with rejected calls in the history: a twin object that never saw them gives the same later outputs (R4);
       * shared objects (profile, prototype generator of a multiuser channel) unchanged (R7)."""
     mu = case['level'] == 'mu'
-    ch = any_channel(case)
+    try:
+        ch = any_channel(case)
+    except Exception as e:      # noqa
+        return ('constructor:exception:%s:%s%s' % (case['level'], case.get('ctor', 'profile'),
+                                                    ':keywords' if case.get('ctor_kw') else ''),
+                '%s: %r' % (type(e).__name__, e))
     proto = getattr(ch, '_verif_proto', None)
     proto_state = None if proto is None else (proto.shape, getattr(proto, '_current_time', None),
                                               getattr(proto, '_pos', None))
@@ -1603,6 +1666,17 @@ def o_history(case):
         if expect == 'reject':
             return ('R4:invalid-call-accepted:%s:%s' % (k, op.get('reject_class', 'guard')),
                     'op %d %s was accepted' % (oi, k))
+        if k == 'query' and observe(ch, case) != before:
+            return 'R11:query-changed-object', 'op %d: a read-only call changed an observable of the object' % oi
+        if k == 'fork':
+            new = res[1]
+
+            def cfg(obs):
+                return [(None if o[0] is None else o[0][1],) + tuple(o[1:]) for o in obs
+                        if isinstance(o, tuple) and len(o) == 6]
+            if cfg(observe(new, case)) != cfg(before):
+                return 'R13:deepcopy-differs', 'op %d: the deep copy does not have the state of the original' % oi
+            ch = new
         if k == 'sw':
             sw = bool(op['v'])
         if k == 'setant':
@@ -1654,27 +1728,31 @@ def o_history(case):
         return 'R7:shared-prototype-generator-modified', 'the generator handed to the multiuser channel changed'
     if prof_state != (np.asarray(prof.tap_delays).tobytes(), np.asarray(prof.tap_powers_linear).tobytes(), prof.Ts):
         return 'R7:shared-profile-modified', 'the channel profile object changed during the history'
-    if any_rejected:
-        # the twin never sees the calls that were rejected
+    passive = any(op['op'] in ('query', 'fork') for op in case['ops'])
+    if any_rejected or passive:
+        # the twin never sees the calls that were rejected, nor the read-only calls, and is never copied
         twin_case = dict(case, ops=[dict(op) for op in case['ops']])
         ch2 = any_channel(twin_case)
         rec2 = Rec()
         got = []
         for oi, op in enumerate(case['ops']):
-            if op.get('expect', 'ok') == 'reject':
+            if op.get('expect', 'ok') == 'reject' or op['op'] in ('query', 'fork'):
                 continue
             try:
                 res = apply_op(ch2, case, op, rec2, False)
             except Exception:
                 continue
+            if res[0] == 'fork':
+                ch2 = res[1]
             if op['op'] in ('tx', 'fx'):
                 got.append((oi, [np.array(v, copy=True) for v in (list(res[1]) if mu else [res[1]])]))
         for (oi, ya), (oj, yb) in zip(accepted, got):
             if oi != oj or len(ya) != len(yb) or any(a.shape != b.shape or not np.array_equal(a, b)
                                                       for a, b in zip(ya, yb)):
-                return ('R4:history-differs-from-object-without-rejected-calls',
+                return (('R4:history-differs-from-object-without-rejected-calls' if any_rejected else
+                         'R11:history-differs-from-object-without-queries-and-copies'),
                         'transmission at op %d differs from the same transmission on a fresh object that '
-                        'never saw the rejected calls' % oi)
+                        'never saw the rejected / read-only calls and was never copied' % oi)
     return None
 
 
@@ -1750,6 +1828,18 @@ def o_discretize(case):
                 '%s: %r' % (type(e).__name__, e))
     if not (np.array_equal(p_arr, keep[0]) and np.array_equal(d_arr, keep[1])):
         return 'R3:input-modified:profile-arrays', 'tap arrays changed by TdlChannelProfile / get_discretize_profile'
+    # R12: the same taps listed in another order are the same profile
+    perm = list(range(len(ds)))
+    core.Rng(len(ds) * 7919 + int(idx0[0]) % 97, 'c03perm').shuffle(perm)
+    try:
+        dq = fading.TdlChannelProfile(np.array([p_arr[i] for i in perm]), np.array([d_arr[i] for i in perm])
+                                      ).get_discretize_profile(Ts_arg)
+    except Exception as e:      # noqa
+        return 'R12:exception-for-permuted-taps', '%s: %r' % (type(e).__name__, e)
+    if not np.array_equal(dq.tap_delays, dp.tap_delays) or dq.tap_powers_linear.shape != dp.tap_powers_linear.shape \
+            or not np.allclose(dq.tap_powers_linear, dp.tap_powers_linear, rtol=1e-12, atol=0.0):
+        return 'R12:tap-order-changes-profile', 'perm %s: %s / %s vs %s / %s' % (
+            perm, list(dq.tap_delays), list(dq.tap_powers_linear), list(dp.tap_delays), list(dp.tap_powers_linear))
     if prof.is_discretized or not np.array_equal(dp.tap_delays, dp2.tap_delays) \
             or not np.array_equal(dp.tap_powers_linear, dp2.tap_powers_linear):
         return 'R7:discretize-not-repeatable', 'second get_discretize_profile differs / source profile changed'
@@ -1816,7 +1906,79 @@ def o_shared(case):
     return None
 
 
+def o_derived(case):
+    """R13: objects obtained from other objects - the discretised child of a profile, scaled / concatenated
+    responses, deep copies and pickles of profiles, responses and channels: parent and child stay independent,
+    a round trip of a child gives back the child"""
+    import copy
+    import pickle
+    from pyphysim.channels import fading, fading_generators as fg, singleuser
+    np.random.seed(case['npseed'])
+    Ts, Ts2 = case['Ts'], case['Ts'] * 2
+    parent = fading.TdlChannelProfile(np.array(case['powers_dB'], dtype=float), np.array(case['delays_s'], dtype=float))
+    pstate = (parent.tap_delays.copy(), parent.tap_powers_dB.copy(), parent.Ts, parent.name)
+    child = parent.get_discretize_profile(Ts)
+    child2 = parent.get_discretize_profile(Ts2)
+
+    def same_prof(a, b):
+        return (np.array_equal(a.tap_delays, b.tap_delays) and np.array_equal(a.tap_powers_dB, b.tap_powers_dB)
+                and np.array_equal(a.tap_powers_linear, b.tap_powers_linear) and a.Ts == b.Ts and a.name == b.name
+                and a.is_discretized == b.is_discretized and a.num_taps == b.num_taps)
+    for how, rt in (('pickle', lambda o: pickle.loads(pickle.dumps(o))), ('deepcopy', copy.deepcopy), ('copy', copy.copy)):
+        for nm, obj in (('child', child), ('child2', child2), ('parent', parent)):
+            try:
+                back = rt(obj)
+            except Exception as e:      # noqa
+                return 'R13:round-trip-exception:profile-%s:%s' % (nm, how), '%s: %r' % (type(e).__name__, e)
+            if not same_prof(back, obj):
+                return 'R13:round-trip-differs:profile-%s:%s' % (nm, how), 'round trip of the %s profile differs' % nm
+    if not (np.array_equal(parent.tap_delays, pstate[0]) and np.array_equal(parent.tap_powers_dB, pstate[1])
+            and parent.Ts == pstate[2] and parent.name == pstate[3]) or same_prof(child, child2):
+        return 'R13:parent-profile-changed', 'deriving children changed the parent (or the children are one object)'
+    # a channel, its copy and a twin that was never copied
+    shape = None if case['ant'] is None else tuple(case['ant'])
+
+    def build():
+        np.random.seed(case['npseed'])
+        g = fg.JakesSampleGenerator(Fd=20.0, Ts=Ts, L=6, shape=shape, RS=np.random.RandomState(case['npseed']))
+        ch = singleuser.SuChannel(g, channel_profile=parent)
+        ch.set_pathloss(case['p'])
+        return ch
+    x = x2np(case['x'])
+    if shape is None:
+        x = x.reshape(-1)
+    ch, twin = build(), build()
+    y0, t0 = ch.corrupt_data(x), twin.corrupt_data(x)
+    if not np.array_equal(y0, t0):
+        return 'R13:twin-not-deterministic', 'two identically seeded channels differ'
+    ir = ch.get_last_impulse_response()
+    scaled = 3.0 * ir
+    for how, rt in (('pickle', lambda o: pickle.loads(pickle.dumps(o))), ('deepcopy', copy.deepcopy)):
+        back = rt(scaled)
+        if not (np.array_equal(back.tap_values_sparse, scaled.tap_values_sparse)
+                and np.array_equal(back.tap_values, scaled.tap_values) and back.Ts == scaled.Ts
+                and np.array_equal(back.tap_indexes_sparse, scaled.tap_indexes_sparse)):
+            return 'R13:round-trip-differs:response:' + how, 'the round trip of a scaled response is not that response'
+    try:
+        cp = copy.deepcopy(ch)
+    except Exception as e:      # noqa
+        return 'R13:round-trip-exception:channel:deepcopy', '%s: %r' % (type(e).__name__, e)
+    cp.set_pathloss(None)
+    cp.switched_direction = True
+    cp2 = copy.deepcopy(ch)
+    y_cp2 = cp2.corrupt_data(x)          # the copy transmits first …
+    y1, t1 = ch.corrupt_data(x), twin.corrupt_data(x)
+    if not np.array_equal(y1, t1):
+        return 'R13:copy-changes-original', 'after a copy was used, the original differs from a twin never copied'
+    if not np.array_equal(y_cp2, t1):
+        return 'R13:copy-differs-from-original', 'the deep copy does not continue like the original'
+    if ch.switched_direction or ch._pathloss_value != twin._pathloss_value:
+        return 'R13:copy-changes-original', 'settings of the copy are visible in the original'
+    return None
+
+
 ORACLES = {
+    'derived-objects': o_derived,
     'transmit': o_history,
     'linearity': o_linear,
     'get_discretize_profile': o_discretize,
@@ -2058,6 +2220,8 @@ def oracles(ctx, n_tx, n_lin, n_disc):
                 'layout': ctx.rng.choice(['c', 'c', 'strided', 'rev']), 'dtype': ctx.rng.choice([None, 'float32']),
                 'ts_type': ctx.rng.choice([None, 'int', 'float32'])}
         run_oracle(ctx, 'get_discretize_profile', case)
+        if len(ds) >= 2:
+            ctx.branch('oracle:R12:tap-order')
         if case['layout'] != 'c':
             ctx.branch('oracle:R2:profile-layout')
         if case['ts_type'] or case['dtype']:
@@ -2071,6 +2235,14 @@ def oracles(ctx, n_tx, n_lin, n_disc):
             run_oracle(ctx, 'get_discretize_profile', {'Ts': fr2s(Ts), 'delays': [fr2s(d) for d in ds],
                                                        'powers': [fr2s(p) for p in ps]}, key=('scale', k, pk))
             ctx.branch('oracle:R6:profile-scale')
+    # R13: derived objects (profile children, scaled responses, copies and pickles)
+    for i in range(6):
+        ant = [None, [2, 2], [1, 3]][i % 3]
+        run_oracle(ctx, 'derived-objects', {'npseed': 100 + i, 'Ts': [1e-3, 0.5, 3.25e-8][i % 3], 'ant': ant,
+                                            'powers_dB': [0.0, -3.5, -6.0], 'p': [None, 0.25, 0.0][i % 3],
+                                            'delays_s': [d * [1e-3, 0.5, 3.25e-8][i % 3] for d in (0.0, 1.2, 4.0)],
+                                            'x': gen_signal(core.Rng(i, 'c03der'), 1 if ant is None else ant[1], 5)})
+        ctx.branch('oracle:R13:derived-objects')
     # R7: shared profile object / shared prototype generator
     for prof, TsA, TsB in (('TU', 3.25e-8, 1e-7), ('RA', 1e-7, 5e-8), ('HT', 5e-7, 3.25e-8), (None, 1e-3, 2e-3)):
         run_oracle(ctx, 'shared-objects', {'profile': prof, 'TsA': TsA, 'TsB': TsB, 'powers_dB': [0.0, -3.0, -6.0],
@@ -2105,8 +2277,13 @@ RTAGS = ['R1:signal-dtype', 'R1:fft-type', 'R1:idx-dtype', 'R1:pl-type', 'R1:pl-
          'R4:rejected-transmission', 'R4:rejected-setter', 'R4:continued-after-rejection',
          'R5:pl0', 'R5:pl1', 'R5:pl-none', 'R5:pl-matrix-zero', 'R5:single-tap', 'R5:one-symbol', 'R5:fft1',
          'R6:scaled', 'R6:tiny-pathloss',
-         'R7:set_num_antennas', 'R7:set_num_antennas-none', 'R7:generate_impulse_response']
+         'R7:set_num_antennas', 'R7:set_num_antennas-none', 'R7:generate_impulse_response',
+         'R8:keyword-arguments', 'R8:default-omitted', 'R8:mu-pathloss-none', 'R8:ctor-profile+Ts', 'R8:ctor-arrays',
+         'R8:ctor-keywords', 'R8:convenience-class', 'R8:antennas-by-setter',
+         'R9:count-type', 'R9:index-type', 'R10:heterogeneous-list', 'R11:queries', 'R13:derived-responses',
+         'R13:deepcopy-continued', 'R14:count>=257']
 REQUIRED += ['corr:' + t for t in RTAGS] + ['oracle:' + t for t in RTAGS]
+REQUIRED += ['oracle:R13:derived-objects', 'oracle:R12:tap-order', 'corr:R12:tap-order']
 
 
 def check(ctx):
